@@ -1180,3 +1180,33 @@ func asBool(o Object) Boolean {
 
 //@ func bRepeat
 //@ loop 1 back-when [C03.repeat.advance] i == prev(i) + 1
+
+// C13: only a clean end of input ends a run.  No function of the scanner
+// reports io.EOF unless the underlying reader did (s.err == io.EOF: the first
+// read error is remembered, C13.refill.sticky); every other read error is
+// returned as it is.  executeScanner returns nil only when ScanToken reported
+// io.EOF, hence only when the reader ended cleanly.
+//@ func (*scanner).readByteRaw
+//@ ensures [C13.raw.eof] result1 == io.EOF ==> s.err == io.EOF
+//@ func (*scanner).readByteEexec
+//@ ensures [C13.eexecbyte.eof] result1 == io.EOF ==> s.err == io.EOF
+//@ func (*scanner).readByte
+//@ ensures [C13.byte.eof] result1 == io.EOF ==> s.err == io.EOF
+//@ func (*scanner).Peek
+//@ ensures [C13.peek.eof] result1 == io.EOF ==> s.err == io.EOF
+//@ func (*scanner).Next
+//@ ensures [C13.next.eof] result1 == io.EOF ==> s.err == io.EOF
+//@ func (*scanner).SkipRequiredByte
+//@ ensures [C13.skipreq.eof] result == io.EOF ==> s.err == io.EOF
+//@ func (*scanner).SkipWhiteSpace
+//@ ensures [C13.skipws.eof] result == io.EOF ==> s.err == io.EOF
+//@ func (*scanner).ReadString
+//@ ensures [C13.string.eof] result1 == io.EOF ==> s.err == io.EOF
+//@ func (*scanner).ReadHexString
+//@ ensures [C13.hexstring.eof] result1 == io.EOF ==> s.err == io.EOF
+//@ func (*scanner).ReadBase85String
+//@ ensures [C13.b85string.eof] result1 == io.EOF ==> s.err == io.EOF
+//@ func (*scanner).ScanToken
+//@ ensures [C13.token.eof] result1 == io.EOF ==> s.err == io.EOF
+//@ func (*Interpreter).executeScanner
+//@ ensures [C13.run.clean] result == nil ==> s.err == io.EOF
